@@ -26,12 +26,12 @@ FIXTURES = os.path.join(ROOT, "fixtures", "jwt")
 TIERS = {
     # exhaustive chain length, concretisations per chain (sources / credential shapes are drawn per
     # concretisation), number of random chains of length 3
-    "quick": {"len": 2, "per": 3, "random": 0},
+    "quick": {"len": 2, "per": 3, "random": 4000},
     "thorough": {"len": 2, "per": 3, "random": 120000},  # + random chains of length 3 (TLC -seed)
 }
 
-RULE = ("cases = every realisable chain of real authenticators up to length 2, in thorough plus 120000 TLC-seeded "
-        "random chains of length 3, over type x allow_fallback_on_error mode (off / on in catalogue / on via rule "
+RULE = ("cases = every realisable chain of real authenticators up to length 2 plus TLC-seeded random chains of "
+        "length 3 (4000 quick, 120000 thorough), over type x allow_fallback_on_error mode (off / on in catalogue / on via rule "
         "override / switched off by rule override) x credential class (none / rejected / valid / infra), "
         "enumerated by TLC (AuthnRealGen), each realised with seeded choices of the credential source (default "
         "Authorization header, custom header with scheme, cookie, query parameter, composite) and shape (absent "
@@ -191,6 +191,7 @@ def run_into(verdict, work, tier, seed):
         "distinct_cases": len(distinct),
         "nontrivial_cases": v["nontrivial"],
         "max_chain_length": 3 if TIERS[tier]["random"] else TIERS[tier]["len"],
+        "random_chains_of_length_3": TIERS[tier]["random"],
         "rejected_by_tlc": len(v["bad"]),
         "reproduced": len(confirmed),
         "binding_divergences": len(v["div"]),
